@@ -36,7 +36,7 @@ META = {
                     'tools/renast.py and tools/minast.py read the renaming / hoisting witness off the real output by structural matching; a mistake there shows as a failed tie, not as a pass',
                     'Spec/PyCore.lean is the meaning of behaviour on the core: an import is an event plus an opaque binding; print, range, __debug__ and the builtin exception names are not rebound; a def is in the static table from the start'],
     'modelled_not_verified': ['renaming of globals, nested scopes (closures, nonlocal, classes, comprehensions, generators) have no PyCore theorem; they are decided by the oracle here and by the structural theorems of C02-C06, C09, C10',
-                              'annotations that are evaluated (parameters, returns, module level, class bodies) are outside the core (known findings F12b/c); a hoisted True/False inside a __debug__ comparison is outside T01.14 (counted out_of_model)',
+                              'annotations that are evaluated (parameters, returns, module level, class bodies) are outside the core (known findings F12b/c)',
                               'PyCore covers a first-order fragment (no closures, classes, containers, exception objects); the rest of the language is reached by the oracle only'],
 }
 
